@@ -161,6 +161,16 @@ var c14Specials = []c14Special{
 		},
 	},
 	{
+		// An argument is dropped; in the file it may hold a comment, on the
+		// same line as the rest of the call or on one of its own.
+		Label: "drop-arg",
+		Text:  "@@\nvar a, b, c expression\n@@\n-c14emit(a, b, c)\n+c14emit(a, c)\n",
+		Plants: []string{
+			"c14emit(c14ctx0, c14level(2 /* warn */), \"x\")", "c14emit(c14ctx0, c14lvl /* inline */, c14msg)", "c14emit(1, 2, 3)",
+			"c14emit(c14ctx0,\n\tc14lvl, // dropped\n\tc14msg)", "_ = c14emit(c14ctx0 /* kept */, c14lvl, c14msg /* kept too */)",
+		},
+	},
+	{
 		// No metavariables: x and y are the names of variables, although
 		// other changes of this family declare metavariables called x and
 		// y. Only the first plant is an instance.
